@@ -87,6 +87,7 @@ type c41part struct {
 	overflow   atomic.Int64
 	honoured   atomic.Int64
 	arraySeeds atomic.Int64
+	sanity     atomic.Int64 // hand-made inputs labelled expect-accept that were rejected
 	thorough   bool
 	infos      sync.Map // reflect.Type -> *c41typeInfo
 }
@@ -1213,6 +1214,10 @@ func (p *c41part) explore(tg c41target) {
 		cls("hostile", o)
 		// inputs labelled "must-reject:" nest deeper than the decoder's depth budget
 		// (protocol.maxMsgpDecodeDepth = 255 nested UnmarshalMsgWithState calls)
+		if strings.HasPrefix(l, "expect-accept:") && !o.panicked && o.err != nil {
+			p.sanity.Add(1)
+			p.noteOnce(fmt.Sprintf("HARNESS sanity: %s: %s was rejected: %v", name, l, o.err))
+		}
 		if strings.HasPrefix(l, "must-reject:") && !o.panicked && o.err == nil {
 			p.report("C41:nesting-limit-not-enforced:"+name, fmt.Sprintf("%s: %s was ACCEPTED — the decoder's nesting limit is not enforced on this path", name, l),
 				map[string]any{"engine": "enum", "type": name, "what": l})
